@@ -593,3 +593,46 @@ def r9_clip_consulted_under_its_flag(ck, P, rid='C03-R9'):
                 if ok:
                     ck.ok(R, where, 'guarded at every call site'); continue
                 ck.violation(R, f.name, 'clip region read at %s' % c.loc(), '%s hands the image\'s clip region to %s although no test of that image\'s have_clip_region guards the read (neither here nor at every caller): after the clip has been removed the stale rectangles still restrict the drawing, and a clip that was set without client_clip is ignored' % (f.name, c.callee), c.loc())
+
+
+def r10_region_gets_callers_images(ck, P):
+    """T-WHO: the composite region is computed from the images the caller passed - all three of them.  A mask that is dropped locally
+    (because it is opaque and does not change colours) still clips."""
+    R = ck.rule('C03-R10', 'every exported drawing entry point hands its own source, mask and destination parameters to the composite-region computation unchanged (not a local copy that some path has set to NULL): an opaque mask does not change colours, but its clip still restricts the region', floor=3)
+    F = find_region_function(P)
+    img = [i for i, (n, t) in enumerate(F.params) if 'pixman_image' in t]
+    n = 0
+    for g in P.functions():
+        if not g.exported:
+            continue
+        for c in g.calls(F.name):
+            n += 1; ck.saw(g)
+            bad = None
+            for k in img:
+                a = c.a[k]
+                if a[0] == 'a' or a[0] == 'n':
+                    continue
+                y = g.v(a)
+                if y is not None and y.op == 'phi':
+                    leaves = []; seen = set(); work = [a]
+                    while work:
+                        o = work.pop(); z = g.v(o)
+                        if z is not None and z.op == 'phi':
+                            if z.i not in seen:
+                                seen.add(z.i); work.extend(z.a)
+                        else:
+                            leaves.append(o)
+                    if any(o[0] == 'n' for o in leaves) and any(o[0] == 'a' for o in leaves):
+                        bad = (k, 'a copy of the parameter that some path has replaced by NULL')
+                    elif not all(o[0] == 'a' for o in leaves):
+                        bad = (k, 'a value that is not the caller\'s parameter on every path')
+                else:
+                    bad = (k, 'a value other than the caller\'s parameter')
+            where = '%s -> %s at %s' % (g.name, F.name, c.loc())
+            if bad:
+                k, why = bad
+                ck.violation(R, g.name, 'image argument %s' % (F.params[k][0] or k), '%s computes the composite region from %s for its %s image: the clip (and alpha-map bounds) of the image the caller passed no longer restrict the drawing on that path, so pixels outside the region the public region query reports are written' % (g.name, why, F.params[k][0] or 'parameter %d' % k), c.loc())
+            else:
+                ck.ok(R, where)
+    if n == 0:
+        ck.incomplete(R, 'no exported caller of the composite-region computation found')
